@@ -422,6 +422,80 @@ func (c *Ctx) INC(rule string) []report.Obligation {
 	if f == nil {
 		return append(out, anchorViolation(rule, "loader.ApplyInclude"))
 	}
+	// INC-6: below the first level the workingDir parameter is relative to the parent project (ORIGIN: the nested
+	// ConfigDetails.WorkingDir is loader.Dir(...)). A path joined to it alone is looked up from the directory the
+	// process happens to run in. Wherever ApplyInclude joins a directory that comes from that parameter with a
+	// relative env_file / project_directory, the directory is (also) taken from the local resource loader, whose
+	// WorkingDir is the same directory in absolute form.
+	if wd := paramByType(f, "string"); wd != nil {
+		nJoin := 0
+		for _, cs := range callSites(f, func(com *ssa.CallCommon) bool { return staticName(com) == "path/filepath.Join" }) {
+			sl, ok := cs.Common().Args[0].(*ssa.Slice)
+			if !ok {
+				continue
+			}
+			al, ok := sl.X.(*ssa.Alloc)
+			if !ok {
+				continue
+			}
+			var base ssa.Value
+			for _, r := range *al.Referrers() {
+				if ia, isIA := r.(*ssa.IndexAddr); isIA {
+					if k, _ := constInt(ia.Index); k == 0 {
+						for _, rr := range *ia.Referrers() {
+							if st, isSt := rr.(*ssa.Store); isSt && st.Addr == ssa.Value(ia) {
+								base = st.Val
+							}
+						}
+					}
+				}
+			}
+			if base == nil {
+				continue
+			}
+			fromParam, fromLoader := false, false
+			seen := map[ssa.Value]bool{}
+			var walk func(v ssa.Value, d int)
+			walk = func(v ssa.Value, d int) {
+				if v == nil || d == 0 || seen[v] {
+					return
+				}
+				seen[v] = true
+				switch x := v.(type) {
+				case *ssa.Parameter:
+					if x == wd {
+						fromParam = true
+					}
+				case *ssa.Phi:
+					for _, e := range x.Edges {
+						walk(e, d-1)
+					}
+				case *ssa.Field:
+					if fieldName(x) == "WorkingDir" {
+						fromLoader = true
+					}
+				case *ssa.UnOp:
+					if loadedField(x) == "WorkingDir" {
+						fromLoader = true
+					} else {
+						walk(x.X, d-1)
+					}
+				case *ssa.ChangeType:
+					walk(x.X, d-1)
+				}
+			}
+			walk(base, 6)
+			if !fromParam {
+				continue
+			}
+			nJoin++
+			out = append(out, verdict(fromLoader, rule+"-6", "ApplyInclude :: a relative path of an include entry is anchored at the local loader's directory", c.P.InstrPos(cs),
+				"the directory joined is the local resource loader's WorkingDir when there is one", "a relative env_file / project_directory is joined to the workingDir parameter alone: for a nested include that directory is relative to the parent project, so the file is looked up from the directory the process runs in (found or not depending on it)"))
+		}
+		if nJoin == 0 {
+			out = append(out, ok2(rule+"-6", "ApplyInclude :: a relative path of an include entry is anchored at the local loader's directory", c.P.Pos(f.Pos()), "no path is joined to the workingDir parameter"))
+		}
+	}
 	lm := c.callsTo(f, "loader.loadYamlModel")
 	if len(lm) != 1 {
 		return append(out, bad(rule+"-4", "ApplyInclude :: nested load", c.P.Pos(f.Pos()), "expected exactly one loadYamlModel call"))
